@@ -180,6 +180,22 @@ def run(case):
                     case.check(err <= TOLERANCES["rel_value"],
                                f"{name}: repeated call with another order differs from the reference (stale weights?)",
                                None, rel_err=err, shape=shape, cutoff=cutoff, first_order=order, order=order2)
+    # a high-pass with the same parameters in between: the low-pass after it is still the low-pass, and the two
+    # filters are complementary
+    if not identity:
+        for nm_, hp_, lp_ in (("utils", lambda a: _utils.highpass_filter(a, cutoff, order), lambda a: _utils.lowpass_filter(a, cutoff, order)),
+                              ("pipe", lambda a: pipe.highpass_filter(cutoff, order)(a, 0.7), lambda a: pipe.lowpass_filter(cutoff, order)(a, 0.7))):
+            xf = x.astype(np.float32) if not p["dtype"].startswith("float") else x
+            l0 = np.asarray(lp_(xf)).astype(np.float64)
+            h1 = np.asarray(hp_(xf)).astype(np.float64)
+            l1 = np.asarray(lp_(xf)).astype(np.float64)
+            wl = ref.lowpass(xf, cutoff, order)
+            if l1.shape == wl.shape == h1.shape:
+                case.check(float(np.abs(l1 - wl).max()) / scale_v <= TOLERANCES["rel_value"],
+                           f"{nm_}.lowpass_filter after a high-pass with the same parameters is no longer the low-pass", None,
+                           shape=shape, cutoff=cutoff, order=order)
+                case.check(float(np.abs(h1 + l0 - xf.astype(np.float64)).max()) / scale_v <= 5e-4,
+                           f"{nm_}: high-pass + low-pass != image", None, shape=shape, cutoff=cutoff, order=order)
     # alignment pre-transform (order 2, cutoff semantic: None/0 -> 1.0 i.e. identity)
     if min(shape) >= 2:
         tmpl = np.ones(shape, np.float32)
